@@ -175,21 +175,21 @@ def oracle_c04(lines, cr, rr, ex=None):
 
 # ---------------- the four checks ----------------
 def k_c01(ctx):
-    what = ("accept", "error", "legs", "years", "cost_if_no_events")
+    what = ("legs", "years", "cost_if_no_events")
     run_k(ctx, K.corpus_ledgers(), what, k_decides=True)
-    run_k(ctx, gen_cases(ctx, ctx.n(1200, 40000), ["competition", "noevents", "noevents", "mixed", "splits"]), what, k_decides=True)
+    run_k(ctx, gen_cases(ctx, ctx.n(4000, 60000), ["competition", "noevents", "noevents", "mixed", "splits"]), what, k_decides=True)
 
 def k_c02(ctx):
     what = ("legs", "holdings", "years")
     run_k(ctx, K.corpus_ledgers(), what, oracle=oracle_c02)
-    run_k(ctx, gen_cases(ctx, ctx.n(1200, 40000), ["mixed", "splits", "competition", "noevents"]), what, oracle=oracle_c02)
+    run_k(ctx, gen_cases(ctx, ctx.n(4000, 60000), ["mixed", "splits", "competition", "noevents"]), what, oracle=oracle_c02)
 
 def k_c03(ctx):
     what = ("cost", "holdings", "years")
     run_k(ctx, K.corpus_ledgers(), what, oracle=oracle_c03)
-    run_k(ctx, gen_cases(ctx, ctx.n(1200, 40000), ["events", "mixed", "competition", "splits"]), what, oracle=oracle_c03)
+    run_k(ctx, gen_cases(ctx, ctx.n(4000, 60000), ["events", "mixed", "competition", "splits"]), what, oracle=oracle_c03)
 
 def k_c04(ctx):
     what = ("proceeds", "totals", "years", "dgain")
     run_k(ctx, K.corpus_ledgers(), what, oracle=oracle_c04)
-    run_k(ctx, gen_cases(ctx, ctx.n(1200, 40000), ["mixed", "plain", "events", "noevents"]), what, oracle=oracle_c04)
+    run_k(ctx, gen_cases(ctx, ctx.n(4000, 60000), ["mixed", "plain", "events", "noevents"]), what, oracle=oracle_c04)
